@@ -7,21 +7,42 @@ lib/Utf8.vos lib/Utf8.vok lib/Utf8.required_vos: lib/Utf8.v lib/Bytes.vos
 gen/Facts_HTMLEscape.vo gen/Facts_HTMLEscape.glob gen/Facts_HTMLEscape.v.beautified gen/Facts_HTMLEscape.required_vo: gen/Facts_HTMLEscape.v 
 gen/Facts_HTMLEscape.vio: gen/Facts_HTMLEscape.v 
 gen/Facts_HTMLEscape.vos gen/Facts_HTMLEscape.vok gen/Facts_HTMLEscape.required_vos: gen/Facts_HTMLEscape.v 
+gen/Facts_checker.vo gen/Facts_checker.glob gen/Facts_checker.v.beautified gen/Facts_checker.required_vo: gen/Facts_checker.v 
+gen/Facts_checker.vio: gen/Facts_checker.v 
+gen/Facts_checker.vos gen/Facts_checker.vok gen/Facts_checker.required_vos: gen/Facts_checker.v 
 gen/Facts_escapers.vo gen/Facts_escapers.glob gen/Facts_escapers.v.beautified gen/Facts_escapers.required_vo: gen/Facts_escapers.v 
 gen/Facts_escapers.vio: gen/Facts_escapers.v 
 gen/Facts_escapers.vos gen/Facts_escapers.vok gen/Facts_escapers.required_vos: gen/Facts_escapers.v 
+model/BuildWrapM.vo model/BuildWrapM.glob model/BuildWrapM.v.beautified model/BuildWrapM.required_vo: model/BuildWrapM.v gen/Facts_checker.vo
+model/BuildWrapM.vio: model/BuildWrapM.v gen/Facts_checker.vio
+model/BuildWrapM.vos model/BuildWrapM.vok model/BuildWrapM.required_vos: model/BuildWrapM.v gen/Facts_checker.vos
 model/HTMLEscapeM.vo model/HTMLEscapeM.glob model/HTMLEscapeM.v.beautified model/HTMLEscapeM.required_vo: model/HTMLEscapeM.v lib/Bytes.vo gen/Facts_HTMLEscape.vo
 model/HTMLEscapeM.vio: model/HTMLEscapeM.v lib/Bytes.vio gen/Facts_HTMLEscape.vio
 model/HTMLEscapeM.vos model/HTMLEscapeM.vok model/HTMLEscapeM.required_vos: model/HTMLEscapeM.v lib/Bytes.vos gen/Facts_HTMLEscape.vos
 model/HtmlDecode.vo model/HtmlDecode.glob model/HtmlDecode.v.beautified model/HtmlDecode.required_vo: model/HtmlDecode.v lib/Bytes.vo lib/Utf8.vo
 model/HtmlDecode.vio: model/HtmlDecode.v lib/Bytes.vio lib/Utf8.vio
 model/HtmlDecode.vos model/HtmlDecode.vok model/HtmlDecode.required_vos: model/HtmlDecode.v lib/Bytes.vos lib/Utf8.vos
+model/MiniGoM.vo model/MiniGoM.glob model/MiniGoM.v.beautified model/MiniGoM.required_vo: model/MiniGoM.v 
+model/MiniGoM.vio: model/MiniGoM.v 
+model/MiniGoM.vos model/MiniGoM.vok model/MiniGoM.required_vos: model/MiniGoM.v 
+model/MiniGoSpec.vo model/MiniGoSpec.glob model/MiniGoSpec.v.beautified model/MiniGoSpec.required_vo: model/MiniGoSpec.v model/MiniGoM.vo
+model/MiniGoSpec.vio: model/MiniGoSpec.v model/MiniGoM.vio
+model/MiniGoSpec.vos model/MiniGoSpec.vok model/MiniGoSpec.required_vos: model/MiniGoSpec.v model/MiniGoM.vos
+proofs/BuildWrap_proofs.vo proofs/BuildWrap_proofs.glob proofs/BuildWrap_proofs.v.beautified proofs/BuildWrap_proofs.required_vo: proofs/BuildWrap_proofs.v gen/Facts_checker.vo model/BuildWrapM.vo
+proofs/BuildWrap_proofs.vio: proofs/BuildWrap_proofs.v gen/Facts_checker.vio model/BuildWrapM.vio
+proofs/BuildWrap_proofs.vos proofs/BuildWrap_proofs.vok proofs/BuildWrap_proofs.required_vos: proofs/BuildWrap_proofs.v gen/Facts_checker.vos model/BuildWrapM.vos
 proofs/HTMLEscape_proofs.vo proofs/HTMLEscape_proofs.glob proofs/HTMLEscape_proofs.v.beautified proofs/HTMLEscape_proofs.required_vo: proofs/HTMLEscape_proofs.v lib/Bytes.vo gen/Facts_HTMLEscape.vo model/HTMLEscapeM.vo lib/Utf8.vo model/HtmlDecode.vo proofs/HtmlDecode_proofs.vo
 proofs/HTMLEscape_proofs.vio: proofs/HTMLEscape_proofs.v lib/Bytes.vio gen/Facts_HTMLEscape.vio model/HTMLEscapeM.vio lib/Utf8.vio model/HtmlDecode.vio proofs/HtmlDecode_proofs.vio
 proofs/HTMLEscape_proofs.vos proofs/HTMLEscape_proofs.vok proofs/HTMLEscape_proofs.required_vos: proofs/HTMLEscape_proofs.v lib/Bytes.vos gen/Facts_HTMLEscape.vos model/HTMLEscapeM.vos lib/Utf8.vos model/HtmlDecode.vos proofs/HtmlDecode_proofs.vos
 proofs/HtmlDecode_proofs.vo proofs/HtmlDecode_proofs.glob proofs/HtmlDecode_proofs.v.beautified proofs/HtmlDecode_proofs.required_vo: proofs/HtmlDecode_proofs.v lib/Bytes.vo lib/Utf8.vo model/HtmlDecode.vo
 proofs/HtmlDecode_proofs.vio: proofs/HtmlDecode_proofs.v lib/Bytes.vio lib/Utf8.vio model/HtmlDecode.vio
 proofs/HtmlDecode_proofs.vos proofs/HtmlDecode_proofs.vok proofs/HtmlDecode_proofs.required_vos: proofs/HtmlDecode_proofs.v lib/Bytes.vos lib/Utf8.vos model/HtmlDecode.vos
+proofs/MiniGo_proofs.vo proofs/MiniGo_proofs.glob proofs/MiniGo_proofs.v.beautified proofs/MiniGo_proofs.required_vo: proofs/MiniGo_proofs.v model/MiniGoM.vo model/MiniGoSpec.vo
+proofs/MiniGo_proofs.vio: proofs/MiniGo_proofs.v model/MiniGoM.vio model/MiniGoSpec.vio
+proofs/MiniGo_proofs.vos proofs/MiniGo_proofs.vok proofs/MiniGo_proofs.required_vos: proofs/MiniGo_proofs.v model/MiniGoM.vos model/MiniGoSpec.vos
+props/C03.vo props/C03.glob props/C03.v.beautified props/C03.required_vo: props/C03.v model/MiniGoM.vo model/MiniGoSpec.vo proofs/MiniGo_proofs.vo gen/Facts_checker.vo model/BuildWrapM.vo proofs/BuildWrap_proofs.vo
+props/C03.vio: props/C03.v model/MiniGoM.vio model/MiniGoSpec.vio proofs/MiniGo_proofs.vio gen/Facts_checker.vio model/BuildWrapM.vio proofs/BuildWrap_proofs.vio
+props/C03.vos props/C03.vok props/C03.required_vos: props/C03.v model/MiniGoM.vos model/MiniGoSpec.vos proofs/MiniGo_proofs.vos gen/Facts_checker.vos model/BuildWrapM.vos proofs/BuildWrap_proofs.vos
 props/C24.vo props/C24.glob props/C24.v.beautified props/C24.required_vo: props/C24.v lib/Bytes.vo gen/Facts_HTMLEscape.vo model/HTMLEscapeM.vo model/HtmlDecode.vo proofs/HTMLEscape_proofs.vo
 props/C24.vio: props/C24.v lib/Bytes.vio gen/Facts_HTMLEscape.vio model/HTMLEscapeM.vio model/HtmlDecode.vio proofs/HTMLEscape_proofs.vio
 props/C24.vos props/C24.vok props/C24.required_vos: props/C24.v lib/Bytes.vos gen/Facts_HTMLEscape.vos model/HTMLEscapeM.vos model/HtmlDecode.vos proofs/HTMLEscape_proofs.vos
